@@ -3,7 +3,11 @@ from fractions import Fraction
 
 from hypothesis import strategies as st
 
-RATIONAL_BASES = ["2", "3", "4", "8", "1/2", "1/4", "-1", "-2", "6", "9", "27", "2/3", "3/2", "1", "-1/2", "12", "1/3"]
+RATIONAL_BASES = ["2", "3", "4", "8", "1/2", "1/4", "-1", "-2", "6", "9", "27", "2/3", "3/2", "1", "-1/2", "12", "1/3",
+                  "1/6", "-3", "5", "10", "5/2", "2/5", "-6", "4/3", "3/4", "1/5"]
+# bases from one multiplicative group with two generators: several independent relations that share bases
+GROUPS = [["2", "3", "2/3", "3/2", "6", "1/6", "1/2", "1/3", "4", "9", "12", "4/3", "3/4"], ["2", "-2", "4", "1/2", "-1/2", "-1", "8", "1/4"],
+          ["2", "5", "10", "5/2", "2/5", "1/2", "1/5", "4"], ["2", "3", "-3", "-6", "6", "-1", "-2", "1/2"]]
 ALGEBRAIC_BASES = ["sqrt(2)", "-sqrt(2)", "I", "-I", "(1+sqrt(5))/2", "(1-sqrt(5))/2", "2*I", "sqrt(3)"]
 COEFFS = ["1", "-1", "2", "1/2", "3", "-2", "1/3", "-3/2", "5"]
 NAMES = ["ga", "gb", "gc", "gd"]
@@ -15,11 +19,19 @@ def closed_forms(draw, kmin=2, kmax=4, algebraic=False, max_terms=3, max_deg=2):
     k = draw(st.integers(kmin, kmax))
     # a small common pool of bases per case makes multiplicative relations likely
     pool_src = RATIONAL_BASES + (ALGEBRAIC_BASES if algebraic else [])
-    pool = draw(st.lists(st.sampled_from(pool_src), min_size=1, max_size=3, unique=True))
-    if algebraic and all(b in RATIONAL_BASES for b in pool):
+    grouped = draw(st.integers(0, 4)) >= 3
+    if grouped:
+        pool = draw(st.lists(st.sampled_from(draw(st.sampled_from(GROUPS))), min_size=2, max_size=4, unique=True))
+    else:
+        pool = draw(st.lists(st.sampled_from(pool_src), min_size=1, max_size=4, unique=True))
+    if algebraic and all(b in RATIONAL_BASES for b in pool) and not grouped:
         pool[0] = draw(st.sampled_from(ALGEBRAIC_BASES))
     goals = []
-    for _ in range(k):
+    for gi in range(k):
+        if grouped and draw(st.integers(0, 3)) > 0:
+            # a pure exponential, each base of the pool in turn
+            goals.append({"terms": [["1", 0, pool[gi % len(pool)]]], "special": []})
+            continue
         nt = draw(st.integers(1, max_terms))
         terms = []
         for _ in range(nt):
